@@ -5,6 +5,7 @@
   for whole function items (`inferFn_sound`).
 -/
 import RotoV.Lemmas.TcInferSound
+import RotoV.Lemmas.TcInferMethod
 
 namespace RotoV.TcInfer
 open RotoV.Typing RotoV.Unify RotoV.Gen
@@ -333,7 +334,7 @@ theorem soundE (env : Env) (henv : EnvPlain env) (e : Expr) (hc : coreE e = true
     obtain ⟨⟨hop, hcl⟩, hcr⟩ := hc
     simp only [infer] at h
     exact binopWith_sound hop
-      (fun τ st d st' hW' hτ h' => soundE env henv l hcl (cx.withTy τ) g st d st' hW' (WTcx_with hcx hτ) hg h')
+      (fun τ st d st' hW' _ hτ h' => soundE env henv l hcl (cx.withTy τ) g st d st' hW' (WTcx_with hcx hτ) hg h')
       (fun τ st d st' hW' hτ h' => soundE env henv r hcr (cx.withTy τ) g st d st' hW' (WTcx_with hcx hτ) hg h')
       hW hcx h
   | const c => exact const_sound henv hW hcx h
@@ -416,8 +417,29 @@ theorem soundE (env : Env) (henv : EnvPlain env) (e : Expr) (hc : coreE e = true
             refine ⟨tr, dde || (!arms.isEmpty && dda), ?_, c2, ?_⟩
             · exact synth_match_known a1' hvd hmh b1 c1
             · intro hd; simp [hnee, b3 hd]
-  | mcall _ _ _ | cassign _ _ _ _ _ | fstr _ => simp [coreE] at hc
+  | cassign op ic x p e =>
+    simp only [coreE, Bool.and_eq_true, bne_iff_ne, ne_eq] at hc
+    exact cassign_sound henv hc.1 (fun cx g st d st' a b c h' => soundE env henv e hc.2 cx g st d st' a b c h') hW hcx hg h
+  | mcall e m args =>
+    simp only [coreE, Bool.and_eq_true] at hc
+    exact mcall_sound henv (fun cx g st d st' a b c h' => soundE env henv e hc.1 cx g st d st' a b c h')
+      (soundAll env henv args hc.2) hW hcx hg h
+  | fstr _ => simp [coreE] at hc
 termination_by sizeOf e
+
+/-- every expression of a list, one by one (the arguments of a method call are
+    checked against types that are not written types) -/
+theorem soundAll (env : Env) (henv : EnvPlain env) (es : List Expr) (hc : coreL es = true) :
+    ∀ a ∈ es, IH env a := by
+  intro a ha
+  cases es with
+  | nil => cases ha
+  | cons e es =>
+    simp only [coreL, Bool.and_eq_true] at hc
+    rcases List.mem_cons.mp ha with rfl | h'
+    · exact fun cx g st d st' x y z h => soundE env henv _ hc.1 cx g st d st' x y z h
+    · exact soundAll env henv es hc.2 a h'
+termination_by sizeOf es
 
 theorem soundList (env : Env) (henv : EnvPlain env) (es : List Expr) (hc : coreL es = true) :
     ∀ cx g st d st', WTs st.store → WTcx cx → WTg g → inferList env cx g es st = .ok d st' →
